@@ -70,6 +70,15 @@ func semExpr(e N) string {
 		return "{" + strings.Join(p, ", ") + "}"
 	case "idx":
 		return semExpr(e["e"].(N)) + "[" + semExpr(e["i"].(N)) + "]"
+	case "slice":
+		lo, hi := "", ""
+		if v := int(e["lo"].(float64)); v >= 0 {
+			lo = fmt.Sprint(v)
+		}
+		if v := int(e["hi"].(float64)); v >= 0 {
+			hi = fmt.Sprint(v)
+		}
+		return semExpr(e["e"].(N)) + "[" + lo + ":" + hi + "]"
 	case "sel":
 		return semExpr(e["e"].(N)) + "." + e["n"].(string)
 	case "import":
